@@ -66,9 +66,13 @@ func (w *MIDIWriter) getTickDeltaAndClear() uint32 {
 	return x
 }
 
-func (w *MIDIWriter) addTickDelta(t uint32) { w.tickDelta += t }
+func (w *MIDIWriter) addTickDelta(t uint32) { w.tickDelta = addTicks(w.tickDelta, t) }
 func (w MIDIWriter) newTicks(multiplier float64) uint32 {
-	return uint32(math.Round(float64(w.quoaterNoteTicks) * multiplier))
+	t := math.Round(float64(w.quoaterNoteTicks) * multiplier)
+	if t > math.MaxUint32 {
+		return math.MaxUint32
+	}
+	return uint32(t)
 }
 
 func (w *MIDIWriter) add(op *TrackOp) {
@@ -101,6 +105,9 @@ func (w MIDIWriter) WriteTo(out io.Writer) (int64, error) {
 	s := smf.New()
 	s.TimeFormat = w.clock
 	for i := range w.set.Set().Len() {
+		if err := w.set.Set().Get(i).validate(); err != nil {
+			return 0, err
+		}
 		var t smf.Track
 		w.set.Set().Get(i).Apply(&t)
 		if err := s.Add(t); err != nil {
